@@ -124,6 +124,7 @@ class World:
             idx = {}
             self.impl_spans = {}
             self.impl_targs = {}
+            self.impl_gen, self.fn_impl = {}, {}
             for name in self.mod.index:
                 m = re.search(r"<impl at ([^:>]+):(\d+):(\d+): (\d+):(\d+)>::(.*)$", name)
                 if not m: continue
@@ -146,11 +147,40 @@ class World:
                     if trait and "<" in trait:
                         targs = [base_name(a) for a in split_top(trait[trait.index("<") + 1:trait.rindex(">")]) if not a.strip().startswith("'")]
                     self.impl_spans[key] = (base_name(ty), base_name(trait) if trait else None, derived, targs)
+                    # generic parameters of the impl and the Self type's arguments (for substitution at call sites)
+                    params, self_args = [], []
+                    if not derived:
+                        full = " ".join(txt.split())
+                        if full.startswith("impl<"):
+                            g = full[5:match_angle(full, 4)]
+                            params = [re.split(r"[:=]", p, 1)[0].strip() for p in split_top(g) if not p.strip().startswith("'")]
+                            params = [p.replace("const ", "").strip() for p in params]
+                        tt = ty.strip()
+                        if "<" in tt and tt.endswith(">"):
+                            self_args = [a.strip() for a in split_top(tt[tt.index("<") + 1:-1]) if not a.strip().startswith("'")]
+                    self.impl_gen[key] = (params, self_args)
                 tb, trb, derived, targs = self.impl_spans[key]
                 idx.setdefault((tb, trb, meth), []).append(name)
                 self.impl_targs[name] = targs
+                self.fn_impl[name] = key
             self._impl = idx
         return self._impl
+
+    def call_subst(self, fn_name, self_ty_text):
+        """{impl type parameter -> concrete type text} for a call to `fn_name` whose Self type was printed as
+        `self_ty_text` (e.g. `DependencyQueue<MemoryAccessType>`); {} when the impl is not generic"""
+        key = self.fn_impl.get(re.sub(r"::\{closure#\d+\}.*$", "", fn_name))
+        if key is None or not self_ty_text: return {}
+        params, self_args = self.impl_gen.get(key, ([], []))
+        if not params or not self_args: return {}
+        t = self_ty_text.strip()
+        if "<" not in t: return {}
+        call_args = [a.strip() for a in split_top(t[t.index("<") + 1:t.rindex(">")]) if not a.strip().startswith("'")]
+        out = {}
+        for formal, actual in zip(self_args, call_args):
+            if formal in params and actual not in params and not re.fullmatch(r"[A-Z]\w{0,2}", actual):
+                out[formal] = actual
+        return out
 
     def pick_impl(self, cands, trait_text):
         """choose among several impls of the same trait for the same type by the trait's generic arguments"""
